@@ -1104,6 +1104,11 @@ func (e *cEnv) eval(x ast.Expr) (Val, error) {
 		if fo, isFn := obj.(*types.Func); isFn && fo.Pkg() == e.p.P.Types && e.p.FuncObj[fo] != nil && e.p.FuncObj[fo].Recv == nil {
 			return Val{K: VFunc, Fn: fo}, nil
 		}
+		// the vector object itself, handed on by value or by pointer (lenVec(cvss20, …)): the
+		// evaluator models one object, every value of its type reads the same bytes
+		if v, isVar := obj.(*types.Var); isVar && !v.IsField() && e.p.isTPtrOrVal(v.Type()) {
+			return Val{K: VOpaque, S: "obj"}, nil
+		}
 		if pv, isVar := obj.(*types.Var); isVar && obj.Parent() == e.p.P.Types.Scope() {
 			// package-level table of constants (never written: R14.globals)
 			_, isSlice := pv.Type().Underlying().(*types.Slice)
@@ -1556,6 +1561,14 @@ func (e *cEnv) evalCall(n *ast.CallExpr) (Val, error) {
 					}
 				}
 				return out, nil
+			case "new":
+				// new(T) for the vector type: a fresh zero object, like &T{}
+				if len(n.Args) == 1 {
+					if tv, ok := info.Types[n.Args[0]]; ok && tv.IsType() && e.p.isTPtrOrVal(tv.Type) {
+						return Val{K: VOpaque, S: "obj"}, nil
+					}
+				}
+				return Val{}, undecidedf(n, "builtin new")
 			case "min", "max":
 				var best Val
 				for i, a := range n.Args {
